@@ -10,6 +10,8 @@ session is closed, and *new* Sessions read it back:
               runs off the end and the tape is rewound) is accepted once, then the file must be found
     skip-to-t for every t > 0, a fresh session asks for file t first (files before it are skipped)
     nameless  a fresh session does LOAD "CAS1:" (thorough tier)
+    partial   a file is opened and closed after 3 bytes (or loaded); the next file is then read in full
+    append    a session reads the last file, then writes one more; a new session reads that one
     untitled  fresh sessions do OPEN "CAS1:" FOR INPUT / LOAD "CAS1:" / BLOAD "CAS1:": the first file of the
               matching type is found, the files of other types before it are skipped
 Oracle (reference model = the list of files): the "Found." message names the file with the type it
@@ -98,9 +100,15 @@ def fname(idx, kind):
 ###############################################################################
 # writing
 
-def write_tape(s, tape, part, case):
-    """Write all files. Returns False if a statement failed (reported as violation)."""
+def write_tape_one(s, tape, only, part, case):
+    return write_tape(s, tape, part, case, only=only)
+
+
+def write_tape(s, tape, part, case, only=None):
+    """Write all files (or file `only`). Returns False if a statement failed (reported as violation)."""
     for idx, (kind, n) in enumerate(tape):
+        if only is not None and idx != only:
+            continue
         name = fname(idx, kind)
         stmts = []
         if kind == 'D':
@@ -365,6 +373,12 @@ def run_tape(part, fmt, tape, orders, case=None):
                     first = [i for i, (k, n) in enumerate(tape) if k in cls]
                     if first:
                         targets.append(('untitled', first[0]))
+            elif order == 'partial':
+                # a file is opened and left after a few bytes (or loaded); the next file is then read in full
+                targets = [('partial', t) for t in range(len(tape) - 1)]
+            elif order == 'append':
+                # the tape is read to its end, then the same session writes one more file; a new session reads it
+                targets = [('append',)]
             elif order == 'wrap':
                 # a later file first, then an earlier one (it lies behind the head)
                 targets = [[t, u] for t in range(1, len(tape)) for u in range(t)]
@@ -377,6 +391,30 @@ def run_tape(part, fmt, tape, orders, case=None):
                         nameless(s, part, case, tape)
                     elif tg[0] == 'untitled':
                         read_file(s, part, case, tape, 0, tg[1], 'no-name', nameless=True)
+                    elif tg[0] == 'partial':
+                        t = tg[1]
+                        kind, n = tape[t]
+                        name = fname(t, kind)
+                        if kind == 'D':
+                            H.run(s, fast.TOP + b'OPEN "CAS1:%s" FOR INPUT AS 1' % name)
+                            if n:
+                                H.run(s, fast.TOP + b'V$=INPUT$(%d,#1)' % min(3, n))
+                            H.run(s, fast.TOP + b'CLOSE 1')
+                        elif kind in 'ABP':
+                            H.run(s, fast.TOP + b'LOAD "CAS1:%s"' % name)
+                        else:
+                            H.run(s, fast.TOP + b'DEF SEG=&HB800:BLOAD "CAS1:%s",8192' % name)
+                        read_file(s, part, case, tape, t + 1, t + 1, 'after-partial-read')
+                    elif tg[0] == 'append':
+                        last = len(tape) - 1
+                        pos = read_file(s, part, case, tape, 0, last, 'skip-to')
+                        if pos is not None:
+                            extra = tuple(tape) + (('D', 7),)
+                            ok = write_tape_one(s, extra, len(tape), part, case)
+                            s.close()
+                            if ok:
+                                s = H.new_session(devices=dev, horizon=200000)
+                                read_file(s, part, case, extra, 0, len(tape), 'appended-after-read')
                     else:
                         pos = 0
                         for i, t in enumerate(tg):
@@ -463,7 +501,7 @@ def legs(ctx):
     lvl = 0 if q else 2
     tapes = [((k1, n1), (k2, n2)) for k1 in KINDS for k2 in KINDS
              for n1 in boundary_sizes(k1, 1 if q else 2) for n2 in boundary_sizes(k2, lvl)]
-    out.append(Leg('pairs', [('CAS', ['order', 'skip', 'wrap', 'untitled'] + ([] if q else ['nameless']), ch)
+    out.append(Leg('pairs', [('CAS', ['order', 'skip', 'wrap', 'untitled', 'partial', 'append'] + ([] if q else ['nameless']), ch)
                              for ch in chunked(tapes, 3 if q else 6)], work_tapes, exhaustive=True,
                    bound='2-file CAS tapes (%d): all 25 kind pairs x boundary sizes (stream length in '
                          '{0, U-1, U, U+1, 2U%s} for the first file, %s for the second; U = 255-byte record '
@@ -485,7 +523,7 @@ def legs(ctx):
     # a header written after a larger binary file (its length field is inherited from that file), then skipped
     tapes = [((k1, n1), (k2, n2), k3) for k1 in 'BPM' for n1 in sizes_near(k1, [UNIT[k1] + 1, 2 * UNIT[k1], 2 * UNIT[k1] + 1])
              for k2 in 'DA' for n2 in boundary_sizes(k2, 0) + [7] for k3 in (('D', 5), ('B', 40))]
-    out.append(Leg('after-binary', [('CAS', ['order', 'skip', 'wrap', 'untitled'], ch) for ch in chunked(tapes, 3)], work_tapes,
+    out.append(Leg('after-binary', [('CAS', ['order', 'skip', 'wrap', 'untitled', 'partial', 'append'], ch) for ch in chunked(tapes, 3)], work_tapes,
                    exhaustive=True,
                    bound='3-file CAS tapes (%d): tokenised/protected/memory file of more than one block (stream length '
                          'U+1, 2U, 2U+1), then a data/ASCII file (0, 7, U bytes), then a data or program file; read in '
